@@ -523,14 +523,33 @@ def rule_h(prog, rep):
                 continue
             n += 1
             b = Bindings(crate, g)
-            ifs = [nd for nd, a in crate.walk_fn(g) if nd.get('k') == 'if']
-            good = False
-            for nd in ifs:
-                c, pol = strip_not(nd['cond'])
-                if c.get('k') == 'path' and any('process_incoming_message' in x for x in b.origins(c)) and pol is False:
-                    good = any(x.get('k') == 'return' and 'Break' in str(x)[:600] for x, _ in walk(nd['then']))
-            conts = [nd for nd, a in crate.walk_fn(g) if nd.get('k') == 'call' and (ctor_name(nd) or '').endswith('ControlFlow::Continue')]
-            if good and conts:
+
+            def pl_alias(nd_, b=b):
+                if isinstance(nd_, dict) and nd_.get('k') == 'path' and any('process_incoming_message' in x for x in b.origins(nd_)):
+                    return 'served'
+                return None
+
+            def pl_classify(nd_, anc_):
+                cn = ctor_name(nd_) if nd_.get('k') == 'call' else None
+                if cn and cn.endswith('ControlFlow::Continue'):
+                    return 'Continue'
+                if cn and cn.endswith('ControlFlow::Break'):
+                    return 'Break'
+                return None
+            pp = Tracer(crate, pl_classify, cond_alias=pl_alias, inline_local=False).run_fn(g)
+            good = True
+            seen_rows = set()
+            for (ex, t, v) in ok_exits(pp):
+                tb = [base(x) for x in t]
+                if '?served=1' in tb:
+                    seen_rows.add(1)
+                    good = good and tb[-1:] == ['Continue'] and 'Break' not in tb
+                elif '?served=0' in tb:
+                    seen_rows.add(0)
+                    good = good and tb[-1:] == ['Break'] and 'Continue' not in tb
+                else:
+                    good = False
+            if good and seen_rows == {0, 1}:
                 rep.ok('C13.h', f'{name}::process_line', g.loc, 'Break on false, Continue otherwise')
             else:
                 rep.violation('C13.h', f'{name}::process_line', g.loc, 'the serve loop does not continue after a served request / stop on false',
